@@ -651,3 +651,61 @@ def cache_key_complete(L: Ledger, rule: str, f: Func):
                         f.loc(st), witness={"two items": f"same {sorted(kin)}, different {missing}"},
                     )
     return n
+
+
+# --------------------------------------------------------------------------------------------------
+# memoised results computed from a scaffold's rows
+# --------------------------------------------------------------------------------------------------
+def rows_memo_verdict(repo: Repo, cls, entry: Func):
+    """`entry` (a method of cls) or a property / method of cls it uses on self keeps a value computed from `self.rows` in an
+    attribute of self.  -> None when nothing is memoised;
+       ("stale", memo method, attr, mutator function, node): the memo's validity test looks at most at `is None` / the *number*
+           of rows while `mutator` changes the rows in place without dropping the memo: a positive finding;
+       raises AnalysisError when the memo is validated against the rows themselves, or no unguarded mutator is found."""
+    cands = [entry]
+    for n in walk_shallow(entry.node):
+        if isinstance(n, ast.Attribute) and is_name(n.value, "self"):
+            m = repo.find_method(cls, n.attr)
+            if m is not None and m is not entry and m not in cands:
+                cands.append(m)
+    family = set(repo.mro(cls)) | set(repo.all_subclasses(cls))
+    for m in cands:
+        stores = [(n, t) for n in walk_shallow(m.node) if isinstance(n, ast.Assign) for t in n.targets if isinstance(t, ast.Attribute) and is_name(t.value, "self")]
+        # chained `x = self._memo = value`
+        if not stores:
+            continue
+        attr = stores[0][1].attr
+        reads = [n for n in walk_shallow(m.node) if isinstance(n, ast.Attribute) and is_name(n.value, "self") and n.attr == attr and isinstance(n.ctx, ast.Load)]
+        if not reads:
+            continue  # written but never read back here: not a memo of this method
+        tests = [n.test for n in walk_shallow(m.node) if isinstance(n, ast.If | ast.IfExp | ast.While)]
+        local_rows = {n.targets[0].id for n in walk_shallow(m.node) if isinstance(n, ast.Assign) and isinstance(n.targets[0], ast.Name) and norm(n.value) == "self.rows"}
+        rows_mentions = [x for t in tests for x in ast.walk(t) if (isinstance(x, ast.Attribute) and norm(x) == "self.rows") or (isinstance(x, ast.Name) and x.id in local_rows)]
+        only_len = all(isinstance(getattr(x, "_parent", None), ast.Call) and dotted(x._parent.func) == "len" for x in rows_mentions)
+        if not only_len:
+            raise AnalysisError(f"{m.short}: a result computed from the rows is memoised in self.{attr} and the memo is validated against the rows themselves: whether it can be stale is not decided")
+        # in-place changes of some object's rows in a function that does not drop the memo
+        for g in repo.functions.values():
+            for n in walk_shallow(g.node):
+                hit = None
+                if isinstance(n, ast.Assign):
+                    for t in n.targets:
+                        if isinstance(t, ast.Subscript) and isinstance(t.value, ast.Attribute) and t.value.attr == "rows" and not (isinstance(t.slice, ast.Slice) and t.slice.lower is None and t.slice.upper is None):
+                            hit = n
+                elif isinstance(n, ast.Call) and isinstance(n.func, ast.Attribute) and n.func.attr in ("extend", "append", "insert", "pop", "remove", "reverse", "sort", "clear") and isinstance(n.func.value, ast.Attribute) and n.func.value.attr == "rows" and is_name(n.func.value.value, "self") and g.cls in family:
+                    hit = n
+                if hit is None:
+                    continue
+                if g is m or g.name == "__init__":
+                    continue
+                # a freshly constructed object inside reverse()/copy helpers has no memo yet: only objects that can already
+                # hold one matter -- `self` in the class family, or any receiver outside constructors
+                drops = any(isinstance(x, ast.Assign) and any(isinstance(tt, ast.Attribute) and tt.attr == attr for tt in x.targets) for x in walk_shallow(g.node))
+                recv = hit.targets[0].value.value if isinstance(hit, ast.Assign) else hit.func.value.value
+                if drops or not is_name(recv, "self"):
+                    continue
+                if g.cls is None or g.cls not in family:
+                    continue
+                return ("stale", m, attr, g, hit)
+        raise AnalysisError(f"{m.short}: a result computed from the rows is memoised in self.{attr}; no operation of the class changes the rows without dropping it, writers outside the class are not tracked: not decided")
+    return None
